@@ -322,10 +322,13 @@ _PL = r'\*?[\w\.\[\]]+'
 
 
 def _t_r8(line, arg=None):
-    """R8: destructuring assignment `(a, b) = e;` / `(a, b, c) = e;` -> `let verif_t = e; a = verif_t.0; b = verif_t.1; ..`
-    (a, b, c: variables or simple places such as `self.0[i]`)"""
-    line = re.sub(r'^(\s*)\((%s), (%s), (%s)\) = (.*);\s*$' % (_PL, _PL, _PL), r'\1let verif_t = \5; \2 = verif_t.0; \3 = verif_t.1; \4 = verif_t.2;', line)
-    return re.sub(r'^(\s*)\((%s), (%s)\) = (.*);\s*$' % (_PL, _PL), r'\1let verif_t = \4; \2 = verif_t.0; \3 = verif_t.1;', line)
+    """R8: destructuring assignment `(a, b, ..) = e;` (2 to 6 places; the `;` may be missing when the assignment ends a block)
+    -> `let verif_t = e; a = verif_t.0; b = verif_t.1; ..` (a, b, ..: variables or simple places such as `self.0[i]`)"""
+    m = re.match(r'^(\s*)\((%s(?:, %s){1,5})\) = (.*?);?\s*$' % (_PL, _PL), line)
+    if not m:
+        return line
+    places = m.group(2).split(', ')
+    return '%slet verif_t = %s; %s' % (m.group(1), m.group(3), ' '.join('%s = verif_t.%d;' % (pl, i) for i, pl in enumerate(places)))
 
 
 def _t_forname(line, arg=None):
@@ -563,12 +566,12 @@ def key(line):
         return 'for %s in %s..%s' % (m10.group(1), m10.group(2), m10.group(3))
     s = re.sub(r'^for (\w+) in verif_it: ', r'for \1 in ', s)
     s = re.sub(r'^for verif_it in ', 'for _ in ', s)
-    m8 = re.match(r'^let verif_t = (.*); (%s) = verif_t\.0; (%s) = verif_t\.1; (%s) = verif_t\.2;$' % (_PL, _PL, _PL), s)
+    m8 = re.match(r'^let verif_t = (.*?); ((?:%s = verif_t\.\d; ?)+)$' % _PL, s)
     if m8:
-        return '(%s, %s, %s) = %s;' % (m8.group(2), m8.group(3), m8.group(4), m8.group(1))
-    m8 = re.match(r'^let verif_t = (.*); (%s) = verif_t\.0; (%s) = verif_t\.1;$' % (_PL, _PL), s)
-    if m8:
-        return '(%s, %s) = %s;' % (m8.group(2), m8.group(3), m8.group(1))
+        places = re.findall(r'(%s) = verif_t\.\d;' % _PL, m8.group(2))
+        return '(%s) = %s;' % (', '.join(places), m8.group(1))
+    if re.match(r'^\((%s(?:, %s){1,5})\) = (.*[^;])$' % (_PL, _PL), s):
+        s = s + ';'   # a destructuring assignment that ends a block without `;`
     ms = re.match(r'^ol_sort\(&mut (\w+)\);$', s)
     if ms:
         return '%s.sort();' % ms.group(1)
